@@ -365,10 +365,12 @@ def rfc8032_ed448_sign(seed57, msg, context=b""):
     return Rb + ((r + k * a) % G.order).to_bytes(57, "little")
 
 
-def rfc8032_ed448_verify(pk57, msg, sig114, context=b"", cofactored=False):
+def rfc8032_ed448_verify(pk57, msg, sig114, context=b"", cofactored=False, strict=True):
     """RFC 8032 Ed448 (pure) verification: canonical A and R, S < L (57th byte zero).
     Default is the cofactorless equation [S]B == R + [k]A (the stricter of the two the RFC
-    allows); cofactored=True checks [4][S]B == [4]R + [4][k]A."""
+    allows); cofactored=True checks [4][S]B == [4]R + [4][k]A.  strict=True (default)
+    additionally rejects small-order A and R, mirroring the Ed25519 strict verifier; with
+    strict=False, cofactored=True this is the most permissive reading of the RFC."""
     G = get_group("ed448")
     if len(pk57) != 57 or len(sig114) != 114:
         return False
@@ -377,6 +379,8 @@ def rfc8032_ed448_verify(pk57, msg, sig114, context=b"", cofactored=False):
         R = G.decode_raw(sig114[:57])
         S = G.scalar_decode(sig114[57:])
     except ValueError:
+        return False
+    if strict and (G.is_small_order(A) or G.is_small_order(R)):
         return False
     k = int.from_bytes(hashlib.shake_256(_dom4(context) + sig114[:57] + pk57 + msg).digest(114), "little") % G.order
     lhs, rhs = G.mul(S, G.generator), G.add(R, G.mul(k, A))
